@@ -444,9 +444,16 @@ class FnOverlay:
         self.fo.ov.obligations.append({"id": tag, "unit": unit, "kind": "proof", "text": _norm_ws(text)[:200],
                                        "asserts": n_asserts})
 
-    def replace(self, old, new, rule):
-        """Mechanical desugaring (D-rules) / cut at an exactly-anchored expression."""
-        s, e = self.fo.find_unique(old, *self._span(), what=f"(fn {self.path})")
+    def replace(self, old, new, rule, optional=True):
+        """Mechanical desugaring (D-rules) at an exactly-anchored expression.  optional: if the expression is no longer
+        there the rewrite is skipped (recorded) and Verus decides whether the code as it stands is acceptable."""
+        try:
+            s, e = self.fo.find_unique(old, *self._span(), what=f"(fn {self.path})")
+        except AnchorLost:
+            if not optional:
+                raise
+            self.fo.records.append({"file": self.fo.rel, "kind": f"{rule}: NOT APPLIED (expression `{_norm_ws(old)[:80]}` no longer present in {self.path})"})
+            return self
         self.fo.replace(s, e, new, note=f"{rule}: `{_norm_ws(old)[:120]}` => `{_norm_ws(new)[:120]}` in {self.path}")
         self.fo.ov.rewrites.append({"rule": rule, "fn": self.path, "old": _norm_ws(old), "new": _norm_ws(new)})
         return self
